@@ -32,6 +32,32 @@ pub trait Engine: Sync {
   fn required_probes(&self, _property: &str, _tier: &str) -> Vec<String> {
     Vec::new()
   }
+  /// How often the same tape is re-executed when a violation has to be reproduced. 1 for engines in which every
+  /// source of non-determinism is behind a seam. The resolver's internal `HashSet` order is the one source that is
+  /// not: on correct code nothing observable depends on it (determinism campaign), but a DEFECT may manifest only
+  /// for some orders; such a violation is reproduced by retrying the identical tape.
+  fn reproduce_attempts(&self) -> u32 {
+    1
+  }
+}
+
+/// Re-executes `tape` until a violation of `invariant` shows (at most `engine.reproduce_attempts()` times).
+pub fn reproduce(
+  engine: &dyn Engine,
+  property: &str,
+  params: &Params,
+  tape: &[u32],
+  keep_trace: bool,
+  invariant: &str,
+) -> Option<Outcome> {
+  for _ in 0..engine.reproduce_attempts().max(1) {
+    if let Ok(out) = run_one(engine, property, params, Tape::replay(tape.to_vec()), keep_trace) {
+      if out.violations.iter().any(|v| v.invariant == invariant && v.property == property) {
+        return Some(out);
+      }
+    }
+  }
+  None
 }
 
 pub struct BatchCfg {
@@ -170,12 +196,9 @@ impl KnownFindings {
 pub fn minimise(engine: &dyn Engine, property: &str, params: &Params, tape: Vec<u32>, invariant: &str) -> (Vec<u32>, u32) {
   let start = Instant::now();
   let mut execs = 0u32;
-  let mut test = |cand: &Vec<u32>, execs: &mut u32| -> Option<Vec<u32>> {
+  let test = |cand: &Vec<u32>, execs: &mut u32| -> Option<Vec<u32>> {
     *execs += 1;
-    match run_one(engine, property, params, Tape::replay(cand.clone()), false) {
-      Ok(out) if out.violations.iter().any(|v| v.invariant == invariant && v.property == property) => Some(out.tape),
-      _ => None,
-    }
+    reproduce(engine, property, params, cand, false, invariant).map(|out| out.tape)
   };
   // Normalise: the tape as consumed (may be shorter than given).
   let mut best = match test(&tape, &mut execs) {
@@ -407,27 +430,35 @@ pub fn run_batch(engine: &dyn Engine, cfg: &BatchCfg) -> BatchResult {
   for (idx, v, count) in unknown.iter().take(5) {
     let run_seed = mix(cfg.seed, *idx);
     // Re-run to obtain the tape, minimise, re-run with trace.
-    let first = match run_one(engine, &cfg.property, &cfg.params, Tape::record(run_seed), false) {
-      Ok(o) => o,
-      Err(e) => {
-        eprintln!("HARNESS-ERROR re-run of violating run {idx} panicked: {e}");
-        exit_code = 2;
-        continue;
+    let mut first: Option<Outcome> = None;
+    for _ in 0..engine.reproduce_attempts().max(1) {
+      match run_one(engine, &cfg.property, &cfg.params, Tape::record(run_seed), false) {
+        Ok(o) => {
+          if o.violations.iter().any(|x| x.invariant == v.invariant) {
+            first = Some(o);
+            break;
+          }
+        }
+        Err(e) => {
+          eprintln!("HARNESS-ERROR re-run of violating run {idx} panicked: {e}");
+          exit_code = 2;
+          break;
+        }
       }
-    };
-    if !first.violations.iter().any(|x| x.invariant == v.invariant) {
+    }
+    let Some(first) = first else {
       eprintln!(
         "HARNESS-ERROR property={} run={} violation {} did not reproduce on re-execution (non-determinism)",
         cfg.property, idx, v.invariant
       );
       exit_code = 2;
       continue;
-    }
+    };
     let (min_tape, execs) = minimise(engine, &cfg.property, &cfg.params, first.tape.clone(), &v.invariant);
-    let out = match run_one(engine, &cfg.property, &cfg.params, Tape::replay(min_tape), true) {
-      Ok(o) => o,
-      Err(e) => {
-        eprintln!("HARNESS-ERROR minimised replay panicked: {e}");
+    let out = match reproduce(engine, &cfg.property, &cfg.params, &min_tape, true, &v.invariant) {
+      Some(o) => o,
+      None => {
+        eprintln!("HARNESS-ERROR minimised replay did not reproduce {}", v.invariant);
         exit_code = 2;
         continue;
       }
@@ -627,7 +658,17 @@ pub fn replay_file(engine_for: &dyn Fn(&str) -> Option<Box<dyn Engine>>, path: &
   let params: Params = serde_json::from_value(v["params"].clone()).unwrap_or_default();
   let tape: Vec<u32> = serde_json::from_value(v["tape"].clone()).unwrap_or_default();
   let want_hash = v["trace_hash"].as_str().unwrap_or("").to_owned();
-  match run_one(engine.as_ref(), &property, &params, Tape::replay(tape), true) {
+  let attempts = engine.reproduce_attempts().max(1);
+  let mut last: Result<Outcome, String> = Err("not executed".to_owned());
+  for _ in 0..attempts {
+    last = run_one(engine.as_ref(), &property, &params, Tape::replay(tape.clone()), true);
+    if let Ok(out) = &last {
+      if out.violations.iter().any(|x| x.invariant == invariant) && format!("{:016x}", out.trace_hash) == want_hash {
+        break;
+      }
+    }
+  }
+  match last {
     Ok(out) => {
       let got_hash = format!("{:016x}", out.trace_hash);
       let hit = out.violations.iter().find(|x| x.invariant == invariant);
